@@ -72,6 +72,9 @@ func (r *pathRun) alt(d decision) {
 }
 
 func (in *Interp) countDecision() {
+	if !in.deadline.IsZero() && in.run.nDec%8 == 0 && time.Now().After(in.deadline) {
+		panic(pathEnd{"bound", "wall-clock budget exhausted inside a path"})
+	}
 	in.run.nDec++
 	if in.run.nDec > in.cfg.MaxDecisions {
 		panic(pathEnd{"bound", fmt.Sprintf("more than %d symbolic decisions on one path (unwinding bound)", in.cfg.MaxDecisions)})
@@ -622,6 +625,9 @@ func (ex *Explorer) runPath(ts *TermStore, ctx *Ctx, start *pnode) (alts []*pnod
 	in := &Interp{P: ex.P, ts: ts, ctx: ctx, run: run, cfg: ex.cfg, result: ex.res,
 		globals: map[*ssa.Global]*value{}, pkgInit: map[*ssa.Package]int{},
 		maxSteps: ex.cfg.MaxSteps, maxDepth: ex.cfg.MaxDepth, ghost: map[string]value{}, jsonToks: map[string]value{}, funcsSeen: map[*ssa.Function]bool{}}
+	if ex.cfg.MaxWall > 0 {
+		in.deadline = ex.t0.Add(ex.cfg.MaxWall + 30*time.Second)
+	}
 	end := "done"
 	if ex.cfg.Sched {
 		in.initSched()
